@@ -748,6 +748,13 @@ func (a *Arith) axioms(form Lin, seen map[string]bool) []Ineq {
 				}
 			}
 		}
+		// the size reported by utf8.DecodeRuneInString / DecodeLastRuneInString: between 0 and the length of the string
+		if ex, ok := v.(*ssa.Extract); ok && ex.Index == 1 {
+			if dc, isC := ex.Tuple.(*ssa.Call); isC && dc.Call.StaticCallee() != nil && strings.HasPrefix(fnFullName(dc.Call.StaticCallee()), "unicode/utf8.Decode") && len(dc.Call.Args) == 1 && a.axiomDepth <= 1 {
+				out = append(out, Ineq{linAtom(k).scale(-1), 0})
+				out = append(out, Ineq{linAtom(k).add(a.lenLin(dc.Call.Args[0], 0), -1), 0})
+			}
+		}
 		// an integer result of a module function: the range every return of that function is proven to lie in
 		{
 			var rc *ssa.Call
